@@ -71,7 +71,7 @@ pub fn profile(id: &str) -> Option<Profile> {
             o.snapshot = false;
             o.need_flush = false;
             o.sweep_every = 0;
-            (Kind::Engine, 8000, 600_000)
+            (Kind::Engine, 24000, 600_000)
         }
         "C07" => {
             g.growth_pct = 4;
@@ -91,7 +91,7 @@ pub fn profile(id: &str) -> Option<Profile> {
             o.need_flush = false;
             o.readback = false;
             o.sweep_every = 0;
-            (Kind::Engine, 8000, 600_000)
+            (Kind::Engine, 24000, 600_000)
         }
         "C08" => {
             g.frag_pct = 20;
@@ -161,7 +161,7 @@ pub fn profile(id: &str) -> Option<Profile> {
             o.need_flush = true;
             o.readback = false;
             o.par_fault_pct = 15;
-            (Kind::Engine, 5000, 300_000)
+            (Kind::Engine, 15000, 300_000)
         }
         "C04" => (Kind::Crash, 5000, 60_000),
         "C05" => (Kind::Crash, 1500, 40_000),
